@@ -244,9 +244,13 @@ func GenRequest(tp *core.Tape, idx int, last bool, o GenOpt) *GenReq {
 				}
 			}
 			m.TEName = mixCase(tp, "Transfer-Encoding")
-			nt := tp.Weighted("ntrail", []int{6, 2, 1})
+			nt := tp.Weighted("ntrail", []int{6, 2, 1, 1})
 			if nt > 0 {
-				names := []string{"X-Checksum", "X-Trail-B"}[:nt]
+				names := []string{"X-Checksum", "X-Trail-B"}[:nt%3]
+				if nt == 3 {
+					// (added weight) a field name that begins like a last-chunk line: any token is a legal field name
+					names = []string{[]string{"0-Sum", "0", "00-X", "0x"}[idx%4]}
+				}
 				m.Headers = append(m.Headers, wire.Header{K: "Trailer", V: strings.Join(names, ", ")})
 				for i, n := range names {
 					if o.Fold && tp.Chance("tfold", 1, 4) {
